@@ -298,6 +298,15 @@ def r08_4(rep, M, rid):
     fl2 = Flow(fn2)
     loops = [n for n in ast.walk(fn2) if isinstance(n, ast.For)]
     if not loops:
+        single = [c for c in ast.walk(fn2) if isinstance(c, ast.Call) and isinstance(c.func, ast.Name) and c.func.id in ("max", "min", "next")]
+        single += [x for x in ast.walk(fn2) if isinstance(x, ast.Subscript) and isinstance(x.slice, ast.Constant) and isinstance(x.slice.value, int)
+                   and any(isinstance(c, ast.Call) and isinstance(c.func, ast.Attribute) and c.func.attr == "get_wyckoff_letters_original" for c in ast.walk(x.value))]
+        quant = [c for c in ast.walk(fn2) if isinstance(c, ast.Call) and isinstance(c.func, ast.Name) and c.func.id in ("any", "all")]
+        if single and not quant:
+            rep.violation(rid, "get_has_free_wyckoff_parameters: letters examined", f"the flag is decided from a single occupied letter (`{norm(single[0])[:60]}`) instead of from "
+                          "every occupied letter: Wyckoff letters are not ordered by the number of free parameters (R-3m: 6c (0,0,z) comes before 9d / 9e without parameters), so a "
+                          "structure occupying c and e reports no free parameter although its sets carry one", M.where(f2, single[0]))
+            return
         raise AnalysisError("get_has_free_wyckoff_parameters: loop over letters not found")
     sl = fl2.slice(loops[0].iter, fl2.node_of(loops[0]))
     perm = any(isinstance(c, ast.Call) and isinstance(c.func, ast.Attribute) and c.func.attr == "get_wyckoff_letters_original"
